@@ -8,7 +8,7 @@ use crate::stack::{Pre, Spec};
 use crate::types::*;
 
 pub const NAME_POOL: &[&str] = &[
-    "a", "ab", "a.b", "a.", "b.txt", ".h", "...", "..a", "ü", "日本", "€x", "A", "a b", "x", "c", "d1", "Ab", "b",
+    "a", "ab", "a.b", "a.", "b.txt", ".h", "...", "..a", "ü", "日本", "€x", "A", "a b", "x", "c", "d1", "Ab", "b", "..\\outside.txt", "a\\b", "b_wo.c",
 ];
 /// names reserved for the areas outside an altroot / inner namespaces (never in the caller's universe)
 pub const ALT_POOL: &[&str] = &["ALTROOT_p", "ALTROOT_q", "ALTROOT_r"];
@@ -444,7 +444,7 @@ impl Gen {
                         }
                         if let Some(i) = views.iter().position(|v| v.exists(d)) {
                             for j in (i + 1)..n {
-                                if !views[j].exists(d) && matches!(layers[j], Spec::Mem { .. } | Spec::Phys { .. } | Spec::Alt { .. }) {
+                                if !views[j].exists(d) && !layers[j].has_ovl() && !matches!(layers[j], Spec::Emb) {
                                     cands.push((d.clone(), j));
                                 }
                             }
